@@ -33,14 +33,14 @@ def run(tier, replay):
     nontrivial = set()
     runs = [(c.seed * 10 + i, 6, 6, 40) for i in range(1 if tier == "quick" else 6)]
     if tier == "thorough":
-        runs += [(c.seed * 10 + 7, 10, 8, 60)]
+        runs += [(c.seed * 10 + 7, 6, 8, 40)]     # more workers; kept moderate: every event carries the whole state and the log collection grows
     dbtrace.CLASSES["C04"] = ("result:", "state:", "events:", "visibility:", "protocol:", "index-content:", "unique:", "structure:")
     for seed, nruns, workers, ops in runs:
         d = os.path.join(work, "stress-%d" % seed)
         os.makedirs(d)
         summary, recs = concrun.record(c, bins["conc"], ["stress", d, seed, nruns, workers, ops])
         concrun.findings(c, recs, ("serial", "wedge", "panic"), "C04")
-        bads, lines = dbtrace.validate(c, d)
+        bads, lines = dbtrace.validate(c, d, timeout=6000)
         dbtrace.judge(c, "C04", bads, lines, [])
         c.add("traces_validated_against_impl", nruns)
         c.add("calls_validated", summary["cases"])
